@@ -54,10 +54,17 @@ def run(prop, tier):
                      "Procs": {"w", "f", "c"}, "Guard287": True}),
             ("wfk", {"CKeys": {1, 2}, "CVals": {1, 2, 3}, "NWrites": 3, "NFlushes": 2, "NCompactions": 0,
                      "Procs": {"w", "f", "k"}, "Guard287": True}),
+            ("wfr", {"CKeys": {1, 2}, "CVals": {1, 2, 3}, "NWrites": 3, "NFlushes": 2, "NCompactions": 0,
+                     "NRotates": 2, "Procs": {"w", "f", "r"}, "Guard287": True}),
         ]
+        for _, consts in scen:
+            consts.setdefault("NRotates", 0)
         if tier == "thorough":
             scen.append(("wfc2", {"CKeys": {1, 2}, "CVals": {1, 2, 3}, "NWrites": 4, "NFlushes": 2,
-                                  "NCompactions": 2, "Procs": {"w", "f", "c"}, "Guard287": True}))
+                                  "NCompactions": 2, "NRotates": 0, "Procs": {"w", "f", "c"}, "Guard287": True}))
+            scen.append(("wfcr", {"CKeys": {1, 2}, "CVals": {1, 2, 3}, "NWrites": 3, "NFlushes": 2,
+                                  "NCompactions": 1, "NRotates": 1, "Procs": {"w", "f", "c", "r"},
+                                  "Guard287": True}))
         states = trans = 0
         scheds = []
         for name, consts in scen:
@@ -93,6 +100,23 @@ def run(prop, tier):
         import random
         random.Random(sd).shuffle(uniq)
         uniq = uniq[:cap]
+        # atomicity probes of the writer's critical section (W is one step of LsmConc): the
+        # writer is parked inside the memtable insert while another thread tries to seal and
+        # flush that memtable (harness/src/conc.rs); the lines recorded are judged like any other
+        def wr(k, t, v):
+            return {"p": "w", "step": "write", "arg": {"k": k, "t": t, "v": v if t == "V" else 0}}
+        fl = [{"p": "f", "step": s_, "arg": 0} for s_ in ("rotate", "collect", "write", "register")]
+        probes = []
+        for pre in range(3):
+            for with_flush in (False, True):
+                for t in ("V", "T"):
+                    sch = [wr(1 + (j % 2), "V", j + 1) for j in range(pre)]
+                    if with_flush and pre:
+                        sch += fl
+                    sch.append(dict(wr(1, t, 3), probe=True))
+                    sch.append(wr(2, "V", 2))
+                    probes.append(sch)
+        uniq = probes + uniq
         inp = os.path.join(work, "scheds.ndjson")
         outp = os.path.join(work, "conc-trace.ndjson")
         with open(inp, "w") as f:
